@@ -98,6 +98,10 @@ def gen_c14_model_cases(seed, ncases, maxlen=25):
         if r.random() < 0.3:
             c.cmd([b"set", keys[0], pick(r, gen.VALS)])
         every = r.random() < 0.4
+        if r.random() < 0.35:
+            # store -> grow an earlier stored item -> read the neighbours, between the random commands
+            for cmd in alias_seq(r, pick(r, [b"al", keys[0][:3] or b"z"])):
+                c.cmd(cmd)
         for _ in range(r.randrange(1, maxlen + 1)):
             f = r.choice(fam)
             cmd = gen.string_cmd(r, keys) if f == "s" else gen.list_cmd(r, keys)
@@ -234,6 +238,139 @@ def gen_c14_filter_cases(seed, ncases):
             else:
                 cmd = pick(r, [[b"ping"], [b"set", b"k", b"v"], [b"get", b"k"], [], [b"PING", b"publish"]])
             c.cmd(cmd)
+        c.dump()
+        cases.append(c)
+    return cases
+
+
+# ---- aliasing family: a command that stores several of its argument slices, then in-place growth
+# or modification of an EARLIER stored item, then reads of everything.  If the decoded arguments of a
+# log entry shared one backing buffer, the grown item would run over its neighbours.
+def _val(r, n, numeric=False):
+    if numeric:
+        return pick(r, [b"9", b"99", b"999", b"-1", b"0", b"9999999"])
+    return bytes(r.choice(b"abcdefghijklmnopqrstuvwxyz") for _ in range(n))
+
+
+STORES = ["mset2", "mset3", "mset4", "set", "setopt", "setnx", "setex", "append_create", "rpush", "lpush", "sadd", "hset", "zadd", "xadd", "mset_num"]
+MUTS = ["append", "append2", "setrange_in", "setrange_end", "setrange_beyond", "incr", "incrby", "decrby", "lset", "hset_over", "hincrby",
+        "lpushx", "sadd_more", "zadd_over", "set_keepttl", "getset_like"]
+
+
+def alias_seq(r, tag, store=None, mut=None, short=None, grow=None):
+    """Commands of one store -> mutate-earlier-item -> read-all sequence on keys carrying [tag]."""
+    store = store or pick(r, STORES)
+    mut = mut or pick(r, MUTS)
+    short = short if short is not None else r.choice([1, 2, 3, 5])          # length of the stored items
+    grow = grow if grow is not None else r.choice([1, 4, 9, 17, 40])        # how far the first item grows
+    num = store == "mset_num" or mut in ("incr", "incrby", "decrby", "hincrby")
+    k = [b"%s:k%d" % (tag, i) for i in range(1, 5)]
+    v = [_val(r, short, num) for _ in range(4)]
+    L, S, H, Z, X = b"%s:l" % tag, b"%s:s" % tag, b"%s:h" % tag, b"%s:z" % tag, b"%s:x" % tag
+    big = _val(r, grow)
+    cmds = []
+    # --- store
+    if store in ("mset2", "mset3", "mset4", "mset_num"):
+        n = {"mset2": 2, "mset3": 3, "mset4": 4, "mset_num": 3}[store]
+        a = [b"mset"]
+        for i in range(n):
+            a += [k[i], v[i]]
+        cmds.append(a)
+        cmds.append([b"mset", k[0], v[0], k[1], v[1]] if r.random() < 0.2 else [b"setnx", k[3], v[3]])
+    elif store == "set":
+        cmds += [[b"set", k[0], v[0]], [b"set", k[1], v[1]]]
+    elif store == "setopt":
+        cmds += [[b"set", k[0], v[0], b"NX"], [b"set", k[1], v[1], b"EX", b"1000"], [b"set", k[2], v[2], b"XX"]]
+    elif store == "setnx":
+        cmds += [[b"setnx", k[0], v[0]], [b"setnx", k[1], v[1]]]
+    elif store == "setex":
+        cmds += [[b"setex", k[0], b"1000", v[0]], [b"setex", k[1], b"1000", v[1]]]
+    elif store == "append_create":
+        cmds += [[b"append", k[0], v[0]], [b"append", k[1], v[1]]]
+    elif store in ("rpush", "lpush"):
+        cmds.append([store.encode(), L] + v[:3])
+        cmds.append([b"mset", k[0], v[0], k[1], v[1]])
+    elif store == "sadd":
+        cmds.append([b"sadd", S] + v[:3])
+        cmds.append([b"mset", k[0], v[0], k[1], v[1]])
+    elif store == "hset":
+        cmds.append([b"hset", H, b"f1", v[0], b"f2", v[1], b"f3", v[2]])
+        cmds.append([b"mset", k[0], v[0], k[1], v[1]])
+    elif store == "zadd":
+        cmds.append([b"zadd", Z, b"1", v[0] + b"a", b"2", v[1] + b"b", b"3", v[2] + b"c"])
+        cmds.append([b"mset", k[0], v[0], k[1], v[1]])
+    elif store == "xadd":
+        cmds.append([b"xadd", X, b"1-1", b"f1", v[0], b"f2", v[1]])
+        cmds.append([b"mset", k[0], v[0], k[1], v[1]])
+    # --- mutate the first / an earlier stored item
+    if mut == "append":
+        cmds.append([b"append", k[0], big])
+    elif mut == "append2":
+        cmds += [[b"append", k[0], big[:max(1, len(big) // 2)]], [b"append", k[1], b"-"], [b"append", k[0], big]]
+    elif mut == "setrange_in":
+        cmds.append([b"setrange", k[0], b"0", big[:max(1, short)]])
+    elif mut == "setrange_end":
+        cmds.append([b"setrange", k[0], b"%d" % len(v[0]), big])
+    elif mut == "setrange_beyond":
+        cmds.append([b"setrange", k[0], b"%d" % (len(v[0]) + r.choice([1, 3, 8])), big])
+    elif mut == "incr":
+        cmds += [[b"incr", k[0]], [b"incr", k[0]]]
+    elif mut == "incrby":
+        cmds.append([b"incrby", k[0], pick(r, [b"1", b"91", b"999999", b"100000000000"])])
+    elif mut == "decrby":
+        cmds.append([b"decrby", k[0], pick(r, [b"10", b"1000", b"100000000000"])])
+    elif mut == "lset":
+        cmds += [[b"lset", L, b"0", big], [b"lset", L, b"1", big + b"!"]]
+    elif mut == "hset_over":
+        cmds.append([b"hset", H, b"f1", big])
+    elif mut == "hincrby":
+        cmds += [[b"hset", H, b"n1", b"9", b"n2", b"99"], [b"hincrby", H, b"n1", b"99991"], [b"hincrby", H, b"f1", b"1"]]
+    elif mut == "lpushx":
+        cmds += [[b"lpushx", L, big], [b"rpushx", L, big]]
+    elif mut == "sadd_more":
+        cmds += [[b"sadd", S, big, v[0]], [b"srem", S, v[1]]]
+    elif mut == "zadd_over":
+        cmds += [[b"zadd", Z, b"5", v[0] + b"a"], [b"zadd", Z, b"1", big]]
+    elif mut == "set_keepttl":
+        cmds += [[b"set", k[0], big, b"KEEPTTL"], [b"append", k[0], big]]
+    elif mut == "getset_like":
+        cmds += [[b"rename", k[0], k[2]], [b"append", k[2], big], [b"append", k[1], big]]
+    # --- read everything back
+    cmds.append([b"mget"] + k)
+    for key in k:
+        cmds.append([b"get", key])
+    cmds += [[b"strlen", k[1]], [b"lrange", L, b"0", b"-1"], [b"smembers", S], [b"hgetall", H],
+             [b"zrange", Z, b"0", b"-1", b"withscores"], [b"xrange", X, b"-", b"+"]]
+    return cmds
+
+
+def gen_c14_alias_cases(seed, nrandom):
+    """Directed: every store kind x every mutator x a short/long growth; plus seeded random ones."""
+    r = random.Random(seed * 982451653 + 17)
+    cases = []
+    i = 0
+    for st in STORES:
+        for mu in MUTS:
+            for short, grow in ((3, 6), (1, 24)):
+                c = Case("c14a_%d_%d" % (seed, i))
+                i += 1
+                for cmd in alias_seq(r, b"a", st, mu, short, grow):
+                    c.cmd(cmd)
+                c.dump()
+                cases.append(c)
+    c = Case("c14a_%d_witness" % seed)      # the shape of the witness named in KNOWN_FINDINGS / the seed
+    for cmd in ([b"MSET", b"user:1", b"ann", b"user:2", b"bob", b"user:3", b"joe"], [b"APPEND", b"user:1", b"-jones"],
+                [b"GET", b"user:2"], [b"GET", b"user:3"], [b"MGET", b"user:1", b"user:2", b"user:3"]):
+        c.cmd(cmd)
+    c.dump()
+    cases.append(c)
+    for j in range(nrandom):
+        c = Case("c14a_%d_r%d" % (seed, j))
+        for t in range(r.randrange(1, 4)):
+            for cmd in alias_seq(r, b"t%d" % r.randrange(2)):
+                c.cmd(cmd)
+            if r.random() < 0.5:
+                c.dump()
         c.dump()
         cases.append(c)
     return cases
